@@ -13,9 +13,9 @@ in-flight map / heap; any schedule) plus `msg.pri`, heap keys and the scan as `P
   `TestVerifStaleHeapReplay`): a late REQ of the same connection between map insert and heap insert leaves a
   stale heap entry of the shared object; its next delivery rewrites `pri` in place; the root is then an entry
   whose object is not due, and message X, due for 1000 time units, is invisible to `processInFlightQueue`.
-* `scan_complete_micro_fixed_example`, `stale_entry_impossible_fixed` — the same schedule in the F48 shape: the
-  late REQ meets a heap entry, removes it, no stale entry, X is released. (The general completeness theorem for
-  the fixed shape is stated as `ScanCompleteFixed`; proved here for the projection facts it rests on — see docs/C04.md.)
+* `stale_entry_impossible_fixed` — the same schedule in the F48 shape: the late REQ meets a heap entry, removes it,
+  no stale entry, X is released. (The GENERAL completeness statement `ScanComplete true` for the fixed shape is NOT
+  proved here — only its instance on the witness schedule and the projection facts it rests on; see docs/C04.md.)
 * `projects_to_untimed`, `ownership_transports` — every timed schedule is a `ChanMicro` schedule: `MInv` and with
   it all theorems of `Nsq.Props.C02Micro` hold for the timed model.
 -/
